@@ -1,21 +1,29 @@
 import Dasp.Model.Bus
-/-! Driver stream `bus` (C13): executes `Dasp.Bus.run` — the definitions the theorems of
-    `Dasp/Props/C13.lean` are about. Core Lean only.
+/-! Driver stream `bus` (C13): executes `Dasp.Bus.runX` (= `Dasp.Bus.step` per operation, the definitions
+    the theorems of `Dasp/Props/C13.lean` are about, plus the composite `untilExhausted`). Core Lean only.
 
-    request  `bus <salt> <op>…`   with `<op>` ∈ `s` | `n<key>` | `d<key>`; the source's i-th frame is
-             the integer `salt + i` (the harness's instrumented source yields the same).
-    reply    one token per op: `<ret>/P<pulls>/B<backlog length>/<key>:<pending>,…` where `<ret>` is
-             `k<key>` (send), `f<frame>` (next), `d` (drop) and the pending list covers every live
-             output in ascending key order (`-` when none is live). -/
+    request  `bus <salt> <len|inf> <op>…`   with `<op>` ∈ `s` (send) | `n<key>` (next) | `d<key>` (drop output)
+             | `b` (drop the Bus handle) | `u<key>` (`until_exhausted()` over the output, at most 200 frames,
+             then the output is dropped). The source's i-th frame is `salt + i` for `i < len` and the
+             equilibrium 0 afterwards; it reports exhaustion once `len` frames were pulled (`inf`: never).
+    reply    one token per op: `<ret>/P<pulls>/B<backlog length>/<key>:<pending>[x],…` where `<ret>` is
+             `k<key>` (send), `f<frame>` (next), `d` (drop / handle drop), `u<f>_<f>…` (until_exhausted);
+             `B-` once the handle is gone (the hook lives on `Bus`); the list covers every live output in
+             ascending key order (`-` when none), `x` marks `is_exhausted()`. -/
 namespace Dasp.Driver
 open Dasp.Bus
 
-def parseBusOp (t : String) : Option Op :=
-  if t == "s" then some .send
+def parseBusOp (t : String) : Option XOp :=
+  if t == "s" then some (.op .send)
+  else if t == "b" then some (.op .dropBus)
   else match t.toList with
-    | 'n' :: r => (String.ofList r).toNat?.map .next
-    | 'd' :: r => (String.ofList r).toNat?.map .drop
+    | 'n' :: r => (String.ofList r).toNat?.map fun k => .op (.next k)
+    | 'd' :: r => (String.ofList r).toNat?.map fun k => .op (.drop k)
+    | 'u' :: r => (String.ofList r).toNat?.map .untilEx
     | _ => none
+
+/-- bound on the frames one `until_exhausted` may yield in a request (the harness uses the same) -/
+def untilCap : Nat := 200
 
 def parseAll {β : Type} (f : String → Option β) : List String → Option (List β)
   | [] => some []
@@ -23,25 +31,36 @@ def parseAll {β : Type} (f : String → Option β) : List String → Option (Li
     | some x, some xs => some (x :: xs)
     | _, _ => none
 
-def showRet : Ret Int → String
-  | .key k => s!"k{k}"
-  | .frame f => s!"f{f}"
-  | .unit => "d"
+def showRet : XRet Int → String
+  | .ret (.key k) => s!"k{k}"
+  | .ret (.frame f) => s!"f{f}"
+  | .ret .unit => "d"
+  | .frames l => "u" ++ "_".intercalate (l.map toString)
 
-def showBusObs (r : Ret Int × St Int) : String :=
+def showBusObs (srcDone : Nat → Bool) (r : XRet Int × St Int) : String :=
   let pend := allPending r.2
-  let ps := if pend.isEmpty then "-" else ",".intercalate (pend.map fun p => s!"{p.1}:{p.2}")
-  s!"{showRet r.1}/P{r.2.pos}/B{backlogLen r.2}/{ps}"
+  let ps := if pend.isEmpty then "-" else ",".intercalate (pend.map fun p =>
+    let x := if isExhausted srcDone r.2 p.1 == some true then "x" else ""
+    s!"{p.1}:{p.2}{x}")
+  let b := if r.2.handle then toString (backlogLen r.2) else "-"
+  s!"{showRet r.1}/P{r.2.pos}/B{b}/{ps}"
 
 def busLine (args : List String) : String :=
   match args with
-  | salt :: ops =>
-    match salt.toInt?, parseAll parseBusOp ops with
-    | some sv, some os =>
-      match run (fun i => sv + (i : Int)) (init : St Int) os with
-      | some obs => " ".intercalate (obs.map showBusObs)
+  | salt :: len :: ops =>
+    let lenv : Option (Option Nat) := if len == "inf" then some none else len.toNat?.map some
+    match salt.toInt?, lenv, parseAll parseBusOp ops with
+    | some sv, some ln, some os =>
+      let src : Nat → Int := fun i => match ln with
+        | none => sv + (i : Int)
+        | some n => if i < n then sv + (i : Int) else 0
+      let srcDone : Nat → Bool := fun p => match ln with
+        | none => false
+        | some n => decide (n ≤ p)
+      match runX src srcDone (untilCap + 1) (init : St Int) os with
+      | some obs => " ".intercalate (obs.map (showBusObs srcDone))
       | none => "bad-op"
-    | _, _ => "bad-op"
+    | _, _, _ => "bad-op"
   | _ => "bad-op"
 
 end Dasp.Driver
